@@ -7,7 +7,15 @@ fn main() {
     let a: Vec<String> = std::env::args().collect();
     let ev = a[1].clone();
     let kib: usize = a[2].parse().unwrap();
-    let expr = dec_expr(&a[3]).unwrap();
+    // `-` as the third argument: the hex expression comes on standard input (inputs beyond the argv limit)
+    let hex = if a[3] == "-" {
+        let mut t = String::new();
+        std::io::Read::read_to_string(&mut std::io::stdin(), &mut t).unwrap();
+        t.trim().to_string()
+    } else {
+        a[3].clone()
+    };
+    let expr = dec_expr(&hex).unwrap();
     let h = std::thread::Builder::new()
         .stack_size(kib * 1024)
         .spawn(move || {
